@@ -60,12 +60,90 @@ Example C19_example :
 Proof. vm_compute. repeat split; reflexivity. Qed.
 Print Assumptions C19_example.
 
-(* PARTIAL.  The full statement — for every current document and every target without nulls, PatchByJSON leaves the
-   document's value equal to the target and the other replicas converge to it — is NOT a theorem here:
-     - the edit script comes from an external library (github.com/wI2L/jsondiff) that is not modelled: a theorem would
-       have to assume that its script transforms the current JSON into the target under RFC 6902;
-     - that orda's application of such a script on the CRDT tree yields the same JSON as RFC 6902 on the plain value
-       (refinement of the Document's local operations to plain JSON operations) is not proved, and neither is
-       convergence of the Document under concurrent operations.
+(* ---------- the script is interpreted as RFC 6902 says, on the readable value ---------- *)
+From Orda.Proofs Require Import TimeFacts OrderFacts DocRefine.
+
+(* the pointer of a patch operation resolves on the CRDT tree (tombstones, superseded children, storage order and all)
+   exactly as it resolves on the plain value the document shows: same container, same call *)
+Theorem C19_pointer_resolves_as_on_value : forall s p, wft s -> patch_call s p = vpatch_call (jview s) p.
+Proof. exact patch_call_view. Qed.
+Print Assumptions C19_pointer_resolves_as_on_value.
+
+(* Patch(p1..pn) — the user transaction of the generic machinery — on a replica that satisfies the document invariant
+   and whose identifier counters are not about to wrap: when every operation of the script is accepted, the document
+   afterwards reads [fold_left plain_patch ps v], the RFC 6902 interpretation (add / remove / replace; "-" = end of
+   array) of the script on the value v it read before.  [Inv' t s] (Proofs/DocRefine.v): well-formed tree, live root,
+   pairwise distinct creation timestamps, every timestamp at most t. *)
+Theorem C19_patch_script_is_rfc6902 : forall d tag ps,
+  let '(d', rs) := d_tx d tag (map UPatch ps) false in
+  Inv' (opid_ts (d_oid d)) (d_snap d) ->
+  o_era (d_oid d) < two31 -> o_lam (d_oid d) + N.of_nat (S (length ps)) < two63 ->
+  Forall (fun p => canon (pt_val p)) ps ->
+  Forall (fun r => exists x : unit, r = Done x) rs ->
+  jview (d_snap d') = fold_left plain_patch ps (jview (d_snap d)).
+Proof. exact patch_transaction_refines. Qed.
+Print Assumptions C19_patch_script_is_rfc6902.
+
+(* the invariant holds for the empty document and is re-established by every accepted script *)
+Theorem C19_invariant_initial : Inv' oldest_ts doc_init.
+Proof. exact Inv'_init. Qed.
+Print Assumptions C19_invariant_initial.
+Theorem C19_invariant_kept : forall ps t s s',
+  ts_bounded t -> Inv' t s -> increasing_ids t (map snd ps) -> Forall (fun pi => canon (pt_val (fst pi))) ps ->
+  run_patches s ps = Some s' ->
+  jview s' = fold_left (fun v pi => plain_patch v (fst pi)) ps (jview s) /\ exists t', Inv' t' s'.
+Proof. exact patches_refine. Qed.
+Print Assumptions C19_invariant_kept.
+
+(* Consequently: IF the script jsondiff produces for (current, target) transforms current into target under RFC 6902
+   — [fold_left plain_patch ps current = target], a statement about plain JSON values only — and every operation is
+   accepted, THEN the patched document reads exactly target. *)
+Theorem C19_correct_script_reaches_target : forall d tag ps target,
+  let '(d', rs) := d_tx d tag (map UPatch ps) false in
+  Inv' (opid_ts (d_oid d)) (d_snap d) ->
+  o_era (d_oid d) < two31 -> o_lam (d_oid d) + N.of_nat (S (length ps)) < two63 ->
+  Forall (fun p => canon (pt_val p)) ps ->
+  Forall (fun r => exists x : unit, r = Done x) rs ->
+  fold_left plain_patch ps (jview (d_snap d)) = target ->
+  jview (d_snap d') = target.
+Proof. exact patch_reaches_target. Qed.
+Print Assumptions C19_correct_script_reaches_target.
+
+(* non-vacuity: a fresh replica and a five-operation script meet every premise, and all operations are accepted *)
+Example C19_rfc6902_example :
+  let d := d_new [117] in
+  let ps := [mkPatch PAdd (pointer [[97]]) (VNum 1);
+             mkPatch PAdd (pointer [[116; 126; 107]]) (VArr [VNum 1; VNum 2]);
+             mkPatch PAdd (pointer [[116; 126; 107]; [45]]) (VNum 3);
+             mkPatch PRemove (pointer [[116; 126; 107]; [48]]) (VNum 0);
+             mkPatch PReplace (pointer [[97]]) (VObj [([120; 47; 121], VBool false)])] in
+  let '(d', rs) := d_tx d [112] (map UPatch ps) false in
+  Inv' (opid_ts (d_oid d)) (d_snap d) /\
+  o_era (d_oid d) < two31 /\ o_lam (d_oid d) + N.of_nat (S (length ps)) < two63 /\
+  Forall (fun p => canon (pt_val p)) ps /\
+  Forall (fun r => exists x : unit, r = Done x) rs /\
+  fold_left plain_patch ps (jview (d_snap d)) = VObj [([97], VObj [([120; 47; 121], VBool false)]); ([116; 126; 107], VArr [VNum 2; VNum 3])].
+Proof.
+  cbv zeta.
+  match goal with |- context [d_tx ?a ?b ?c ?d] => let r := eval vm_compute in (d_tx a b c d) in change (d_tx a b c d) with r end.
+  cbv beta iota. split; [|split; [|split; [|split; [|split]]]].
+  - split; [split; [constructor|exact I]|]. split; [reflexivity|]. split; [repeat constructor; intros []|].
+    constructor; [|constructor]. split; [|exact I]. left. split; [split; vm_compute; reflexivity|vm_compute; reflexivity].
+  - vm_compute. reflexivity.
+  - vm_compute. reflexivity.
+  - repeat constructor.
+  - repeat constructor; exists tt; reflexivity.
+  - vm_compute. reflexivity.
+Qed.
+Print Assumptions C19_rfc6902_example.
+
+(* PARTIAL.  What is proved: atomicity of a Patch (one unit / complete restoration), the pointer syntax for all keys,
+   and that an accepted script acts on the document exactly as RFC 6902 acts on the value it shows, for every tree
+   that satisfies the invariant (the empty document does; every accepted local call and script keeps it).
+   What is NOT a theorem here:
+     - that the script from the external library github.com/wI2L/jsondiff transforms current into target (it is the
+       hypothesis of the last theorem; the library is not modelled);
+     - that the invariant survives REMOTE operations (it does in every replayed history: distinct operation identifiers
+       and the Lamport clock give it), and convergence of the other replicas under concurrent operations.
    These parts rest on the correspondence check (every PatchByJSON of the doc slice is replayed on this model:
    operations, identifiers, resulting value) and on the Go oracle that compares the result with the target itself. *)
